@@ -11,6 +11,8 @@ use crate::fx::{dec34, fmt_fixed, fx_mag, pow10, Fx, P34};
 use crate::refalgo::{self, Est};
 use crate::truth::{self, BF};
 
+static NO_PORT: std::sync::LazyLock<bool> = std::sync::LazyLock::new(|| std::env::var("PV_MATH_NO_PORT").is_ok());
+
 const BOUNDS: [i64; 10] = [3, 3, 3, 4, 5, 10, 100, 1000, 1_000_000, 1_000_000_000_000];
 
 #[derive(Debug, Clone, Serialize, Deserialize)]
@@ -56,22 +58,24 @@ fn check_cmp(
     obs.class(format!("result:{:?}", got_est));
 
     // (a) the reference algorithm: estimate, iteration count, approximation
+    // (PV_MATH_NO_PORT=1: sensitivity ablation only, measures oracle (b) on its own)
+    let no_port = *NO_PORT;
     pv_ensure!(
-        got_est == est,
+        no_port || got_est == est,
         "expcmp-estimate-differs-from-reference",
         "exp_cmp(x={xs}, max_n={max_n}, bound={bound}, compare={cs}): pallas {:?}, reference {:?}",
         got_est,
         est
     );
     pv_ensure!(
-        res.iterations == iters,
+        no_port || res.iterations == iters,
         "expcmp-iterations-differ-from-reference",
         "exp_cmp(x={xs}, max_n={max_n}, bound={bound}, compare={cs}): pallas {} iterations, reference {}",
         res.iterations,
         iters
     );
     pv_ensure!(
-        res.approx == dec34(&approx) && res.approx.to_string() == fmt_fixed(&approx, 34),
+        no_port || (res.approx == dec34(&approx) && res.approx.to_string() == fmt_fixed(&approx, 34)),
         "expcmp-approx-differs-from-reference",
         "exp_cmp(x={xs}, max_n={max_n}, bound={bound}, compare={cs}): pallas approx {}, reference {}",
         res.approx,
@@ -266,9 +270,10 @@ pub fn run(s: &Session) {
     s.assume("x < 0 and bound < e^x are outside the domain (all callers pass x >= 0 and a dominating bound)");
     s.assume("a wrong GT/LT whose margin is at most iterations+2 ulps of 1e-34 is reported under a separate signature (fixed-point rounding inherent in the reference algorithm)");
 
+    s.health(!*NO_PORT, "PV_MATH_NO_PORT is set: the reference-equality oracle is disabled (sensitivity ablation only)");
     s.forall(
         "exp-cmp",
-        s.pick(40_000, 1_500_000),
+        s.pick(120_000, 1_500_000),
         || {
             let x = prop_oneof![
                 4 => fx_mag(-2, -2, false),      // [0, 1.8): the leader range, dense
@@ -292,7 +297,7 @@ pub fn run(s: &Session) {
     // above the 1e-24 cut-off (x^2/2 >= 1e-24 and x^3/6 < 1e-34): compare just above the partial sum
     s.forall(
         "rounding-window",
-        s.pick(4_000, 100_000),
+        s.pick(10_000, 100_000),
         || {
             (fx_mag(-14, -13, false), 0i8..=4, prop_oneof![Just(3u16), any::<u16>()], 2u16..=1000)
                 .prop_map(|(x, n, bound_sel, max_n)| CmpCase { x, cmp: Cmp::Approx(n), bound_sel, max_n })
@@ -302,7 +307,7 @@ pub fn run(s: &Session) {
 
     s.forall(
         "leader-flow",
-        s.pick(6_000, 200_000),
+        s.pick(20_000, 200_000),
         || {
             let fr = || (prop_oneof![4 => 0u64..100_000_000_000_000_000, 1 => 0u64..1000], any::<u64>());
             (any::<u8>(), fr(), fr(), prop_oneof![2 => Just(None), 1 => (-3i8..=3).prop_map(Some)])
